@@ -158,6 +158,17 @@ pub fn run(ctx: &Ctx) -> Report {
     creds.push((parts[0].to_string(), "///".to_string())); // 5 empty-ish parts
     creds.push((parts[0].to_string(), "////".to_string()));
     creds.push((parts[0].to_string(), String::new()));
+    // long credentials: the access key padded so that the correct five-part text ends exactly at, one before or
+    // one after a power-of-two length, followed by nothing, a sixth part or a longer terminator (what is checked
+    // and what is signed must be the same text however long it is)
+    let n_short = creds.len();
+    for total_len in [64usize, 128, 255, 256, 257, 512, 1024, 4096, 8192, 65_536] {
+        let tail = format!("{}/us-east-1/service/aws4_request", d8);
+        let ak_len = total_len - tail.len() - 1;
+        for suffix in ["", "/extra", "_v2", "/", "x", "/a/b/c", " "] {
+            creds.push(("K".repeat(ak_len), format!("{}{}", tail, suffix)));
+        }
+    }
     let total2 = creds.len() as u64 * 2 * 2;
     let st2 = par_sweep(total2, |i, st| {
         let carrier = if i % 2 == 0 { Carrier::Header } else { Carrier::Query };
@@ -182,7 +193,10 @@ pub fn run(ctx: &Ctx) -> Report {
                 return;
             }
         }
-        let case = Case { wire, cfg: Cfg::basic(e2e::base_instant()), prov: ProvSpec::standard() };
+        // for the long credentials the provider hands out the key whatever the access key (so that only the
+        // credential rules can refuse)
+        let prov = if (i / 4) as usize >= n_short { ProvSpec::Fixed(plan.key.to_vec()) } else { ProvSpec::standard() };
+        let case = Case { wire, cfg: Cfg::basic(e2e::base_instant()), prov };
         let j = e2e::judge_into(total1 + i, &case, st);
         st.state(&(j.reference.stage as u8, j.reference.error.map(|k| k.name()), "arity"));
         st.nontrivial(&(ak, scope, bare, carrier));
@@ -273,7 +287,7 @@ pub fn run(ctx: &Ctx) -> Report {
     Report {
         stats: st,
         rule: format!(
-            "(1) five-part credentials: 12 date variants (exact, -1 day, +1 day, 7 digits, trailing space, extended, empty, written-local date, and the numerically equal spellings +D, 0D, 00D, D.0) x 12 near-misses each of region, service and terminator (exact, prefix, suffix, x+v, v+x, UPPER, empty, look-alike, trailing blank, leading blank, lower, case-swapped) x {} server (region, service) pairs (incl. a mixed-case one, empty strings, non-ASCII and 300-character values) x {} request instants (incl. 23:59:59Z, 00:00:00Z and offsets whose UTC date differs from the written date) x signing mode A (correctly signed under the credential's own scope; provider returns that key unconditionally) / B (signed under the server's scope) x carrier; (2) credentials of 1..8 parts, with leading/trailing/double slashes, empty access key and no slash at all; (3) every sequence of 1..3 validations on one thread over 50 symbols (5 server configurations, one differing from another in letter case only, x credential scoped for any of the 5 x carrier): each judged as if it were alone; (4) 9 access keys (case variant, inner / trailing blank, literal percent signs, non-ASCII, one character) x 10 session tokens (none, reserved characters, literal percent signs, inner blanks, commas, non-ASCII, 4 kB, case variant, trailing blank) x carrier x token signed or not: the provider is asked for exactly that access key and token. Oracle: reference verifier (Ok iff all five parts right; arity => IncompleteSignature/400; other mismatch => SignatureDoesNotMatch/403 also in mode A; provider asked iff scope fully correct, with (access key, token, UTC date, server region, server service)). states = distinct (stage, kind, provider ask)",
+            "(1) five-part credentials: 12 date variants (exact, -1 day, +1 day, 7 digits, trailing space, extended, empty, written-local date, and the numerically equal spellings +D, 0D, 00D, D.0) x 12 near-misses each of region, service and terminator (exact, prefix, suffix, x+v, v+x, UPPER, empty, look-alike, trailing blank, leading blank, lower, case-swapped) x {} server (region, service) pairs (incl. a mixed-case one, empty strings, non-ASCII and 300-character values) x {} request instants (incl. 23:59:59Z, 00:00:00Z and offsets whose UTC date differs from the written date) x signing mode A (correctly signed under the credential's own scope; provider returns that key unconditionally) / B (signed under the server's scope) x carrier; (2) credentials of 1..8 parts, with leading/trailing/double slashes, empty access key and no slash at all, and credentials whose correct five-part text ends exactly at / next to lengths 64 .. 65536 followed by a sixth part or a longer terminator; (3) every sequence of 1..3 validations on one thread over 50 symbols (5 server configurations, one differing from another in letter case only, x credential scoped for any of the 5 x carrier): each judged as if it were alone; (4) 9 access keys (case variant, inner / trailing blank, literal percent signs, non-ASCII, one character) x 10 session tokens (none, reserved characters, literal percent signs, inner blanks, commas, non-ASCII, 4 kB, case variant, trailing blank) x carrier x token signed or not: the provider is asked for exactly that access key and token. Oracle: reference verifier (Ok iff all five parts right; arity => IncompleteSignature/400; other mismatch => SignatureDoesNotMatch/403 also in mode A; provider asked iff scope fully correct, with (access key, token, UTC date, server region, server service)). states = distinct (stage, kind, provider ask)",
             n_serv, n_inst
         ),
         bounds: json!({"servers": n_serv, "instants": n_inst, "cases": total1 + total2}),
